@@ -103,9 +103,32 @@ def listy(t):
     return 'list' if t == 'int' else 'any'
 
 
+# Operators that may follow a stream of numpy scalars ('npfloat', what scan emits for the seed numpy.float64(0)).  Everything
+# that compares, hashes, orders or does arithmetic on items together with other values is kept away from them: a numpy scalar
+# compared with a list answers with an array (no truth value), and float + numpy.float64 leaves the type of a typed state
+# (the precondition of C01).  The type is contagious through tee_map joins and through containers.
+NP_OK = ('identity', 'do_action', 'take', 'first', 'last', 'count', 'to_list', 'batch')
+
+
 def check_node(node, st, fl):
     """Returns the St after `node`; raises Invalid when a precondition of the
     property texts (or a type) is not met."""
+    if st.t == 'npfloat':
+        if node['op'] not in NP_OK:
+            raise Invalid('operator after a stream of numpy scalars')
+        r = _check_node(node, st.copy(t='any'), fl)
+        if node['op'] != 'count':
+            r.t = 'npfloat'
+        return r
+    r = _check_node(node, st, fl)
+    if node['op'] == 'tee_map' and r.t != 'npfloat':
+        outs = [check_pipeline(b, st, fl.sub(in_tee=True)) for b in node['branches']]
+        if any(o.t == 'npfloat' for o in outs):
+            r.t = 'npfloat'
+    return r
+
+
+def _check_node(node, st, fl):
     op = node['op']
     t = st.t
     if st.aliased:
@@ -305,11 +328,12 @@ def check_node(node, st, fl):
             if t != 'rec':
                 raise Invalid('time_split needs records')
             for k in ('active', 'inactive'):
-                if node.get(k) is not None and node[k] <= 0:
-                    raise Invalid('time-outs must be positive')
+                if node.get(k) is not None and node[k] < 0:
+                    raise Invalid('time-outs must not be negative')
             if node.get('dt') not in (None, False, True, 'seconds', 'hours', 'days', 'np_int', 'np_float', 'np_dt64'):
                 raise Invalid('time unit')
-            inner_empty = bool(node.get('closing'))
+            # a closing item that is not included, or a zero time-out (the first item of a key expires the window it has just opened), leave empty windows
+            inner_empty = bool(node.get('closing')) or node.get('active') == 0 or node.get('inactive') == 0
         else:
             key = node['key']
             if key not in F.KEYS or not (_match(t, F.KEYS[key][1]) or (op == 'split' and F.KEYS[key][1] == t + '_nan')
@@ -516,11 +540,11 @@ class Gen(object):
                     self.npn(node)
                 ist = St(t, False, False)
             elif op == 'time_split':
-                node['active'] = r.choice([None, 3, 5, 8])
-                node['inactive'] = r.choice([None, 1, 2, 3])
+                node['active'] = r.choice([None, 3, 5, 8] * 3 + [0])         # a timeout of zero is a configured timeout
+                node['inactive'] = r.choice([None, 1, 2, 3] * 3 + [0])
                 node['closing'] = r.random() < 0.5
                 node['include'] = r.random() < 0.5
-                ist = St(t, node['closing'], False)
+                ist = St(t, node['closing'] or node['active'] == 0 or node['inactive'] == 0, False)
             else:
                 keys = names_for(F.KEYS, t)
                 if op == 'split' and r.random() < 0.15:
